@@ -26,7 +26,7 @@ NOPLAN = {"pool": 0, "wk": 0, "sd": NOSD, "tm": -1}
 
 def dyn(rel, dl, prob=1000000):
     return {"st": 1, "pss": 1, "rel": rel, "irel": rel, "dl": dl, "start": -1, "rem": -1, "last": -1, "fin": -1,
-            "cat": -1, "pool": 0, "plan": NOPLAN, "prob": prob}
+            "cat": -1, "pool": 0, "plan": NOPLAN, "prob": prob, "ppool": 0}
 
 
 def flags(**kw):
